@@ -260,8 +260,11 @@ class _Cutter(ast.NodeTransformer):
                 elif isinstance(sub, (ast.For,)):
                     tgt = [sub.target]
                 if isinstance(sub, ast.Call) and isinstance(sub.func, ast.Attribute) and sub.func.attr in ('append', 'extend', 'insert', 'pop') \
-                        and isinstance(sub.func.value, ast.Name) and sub.func.value.id not in names:
-                    names.append(sub.func.value.id)      # a list grown in the body: havocked as a whole (needs a havoc rule: SymList)
+                        and isinstance(sub.func.value, ast.Name) and sub.func.value.id not in names \
+                        and sub.func.value.id in getattr(self.loops.get(self.ordinal), 'havoc', {}):
+                    # a list grown in the body is havocked as a whole ONLY when the loop spec gives a havoc rule for it (SymList);
+                    # otherwise it is left alone (ghost observers such as a history list keep what the arbitrary iteration appends)
+                    names.append(sub.func.value.id)
                 for t_ in tgt:
                     # plain names (and names in tuple/list unpacking) are re-bound; `x[i] = ...` mutates the
                     # tensor bound to x, which is havocked as a whole; `x.attr = ...` is left alone
